@@ -6,7 +6,7 @@ HOOKS = {
               'for symmetry only',
     'baseline_off_cmd': 'cd /repo && /venv/bin/python -m pytest -ra -q -p no:cacheprovider --timeout=900 '
                         '--continue-on-collection-errors',
-    'source_commits': [],
+    'source_commits': [],  # no hook commits; repairs of genuine defects are 'fix:' commits in /repo (see known_findings.json)
     'add_only': True,
 }
 ENGINES = [{
@@ -73,4 +73,12 @@ CHECKS['C05'] = dict(
          'A CLI slice runs every expression on 24 texts through contents / stdout / file -transformed-by in the polarity that must PASS.',
     note='Reference evaluator uses Python re for REGEX (the manual defines REGEX by reference to Python); characters other than \\n that some '
          'line splitters treat as line breaks are C14 territory.')
+CHECKS['C13'] = dict(
+    level='exploration',
+    technique='bounded-exhaustive enumeration of line-matcher / integer-matcher trees and range lists x all texts of 0..N lines on the real filter, compared with per-line reference evaluation, with the same real matcher applied line by line, and with interval containment',
+    text='~20 000 distinct line-matcher expressions (line-num with integer-level trees to depth 2, line-level trees to depth 2, mixed, and their negations; '
+         'thorough: depth 3, N=9) x 26 texts of 0..6 lines, and all range lists of <=2 ranges (thorough: <=3, and 4 over a reduced set): output of the real '
+         '`filter` == lines accepted by the reference == lines accepted by the same real matcher applied to each line alone, and every accepted line '
+         'number lies in interval_of_matcher(matcher).  A CLI slice runs every 7th expression through stdout -transformed-by ... equals.',
+    note='Found and repaired a genuine defect (fix: commit ae84285 in /repo, known_findings.json KF-C13-1).')
 NOT_APPLICABLE = {}
